@@ -38,7 +38,8 @@
 (*                     sentinel), x = class                                *)
 (*                                                                         *)
 (* Scenario record c: hosts (sequence of "ok" | "down" | "nopool" |        *)
-(* "noconn"), pol = [kind, n, allow], k (speculative attempts), idem.      *)
+(* "noconn"), pol = [kind, n, allow], k (speculative attempts), idem, wire *)
+(* (TRUE: end-to-end observation, "start" is logged by the node).          *)
 (*   pol.kind = "none"   no retry policy                                   *)
 (*            = "budget" SimpleRetryPolicy / ExponentialBackoffRetryPolicy *)
 (*                       {NumRetries: n} ("number of times to retry a      *)
@@ -97,7 +98,7 @@ Allowed(c, nexecs) == PolBmax(c.pol) + nexecs
 \* ---- monitor state
 MonX0 == [natt |-> 0, prevh |-> 0, ord |-> 0, out |-> "none", lerr |-> 0, lerrx |-> "none",
           alw |-> "none", dec |-> "none", cand |-> -1, skipped |-> FALSE,
-          comp |-> FALSE, ratt |-> 0, reord |-> 0, rx |-> "none"]
+          comp |-> FALSE, ratt |-> 0, reord |-> 0, rx |-> "none", aft |-> FALSE]
 MonInit == [sent |-> 0, ends |-> 0, execs |-> {}, cancelled |-> FALSE, ret |-> FALSE, q |-> {}, viol |-> {},
             x |-> [e \in E |-> MonX0]]
 
@@ -113,8 +114,17 @@ StartKeys(m, r, e, h, x, c) ==
   LET retry == r.natt >= 1
       nex == Cardinality(m.execs \cup {e})
       sent1 == m.sent + (IF x = "sent" THEN 1 ELSE 0) IN
+  \* "the caller gets exactly one result - the first to complete": once the caller has it the
+  \* statement is over (executeQuery cancels the executions' context when it returns), and no
+  \* further request may go out for it.  In-package a "sent" start is logged in the same critical
+  \* section as the context check, so any one after the return event counts.  On the wire
+  \* (c.wire: the event is logged by the NODE on receipt) a request may have been sent before
+  \* the return and be seen after it; it is certainly sent after the return when the execution
+  \* has another event after the return before it (each event of an execution causally
+  \* precedes its next request).
+  (IF x = "sent" /\ m.ret /\ (~c.wire \/ r.aft) THEN {"attempt-after-result"} ELSE {})
   \* "a query not marked idempotent is ... as the documentation states, never retried"
-  (IF retry /\ ~c.idem THEN {"non-idempotent-retried"} ELSE {})
+  \cup (IF retry /\ ~c.idem THEN {"non-idempotent-retried"} ELSE {})
   \* "a query is sent once unless a retry policy ... says otherwise"
   \cup (IF retry /\ r.out = "ok" THEN {"retry-after-success"} ELSE {})
   \cup (IF retry /\ IsErr(r.out) /\ c.pol.kind = "none" THEN {"retry-without-policy"} ELSE {})
@@ -153,7 +163,8 @@ MonStep(m, evt, c) ==
   LET e == evt.e
       r == IF e \in E THEN m.x[e] ELSE MonX0
       SetX(m1, r1) == [m1 EXCEPT !.x[e] = r1]
-      AddExec(m1, keys) == [m1 EXCEPT !.execs = @ \cup {e}, !.viol = @ \cup keys \cup NewExecKeys(m, e, c)] IN
+      AddExec(m1, keys) == [m1 EXCEPT !.execs = @ \cup {e}, !.viol = @ \cup keys \cup NewExecKeys(m, e, c),
+                                      !.x[e].aft = @ \/ m.ret] IN
   CASE evt.ev = "pick" ->
          \* passing over a usable offered host is remembered; an exhausted iterator ends the
          \* execution with the last attempt's error (or "no connections" if there was none)
@@ -184,7 +195,10 @@ MonStep(m, evt, c) ==
                      \* what the policy consults: Attempts() "returns the number of times the query was
                      \* executed" (Query) / "the number of attempts made to execute the batch" (Batch);
                      \* every finished attempt is logged atomically with the real metrics update
-                     \cup (IF evt.n # m.ends THEN {"attempts-miscounted"} ELSE {}) IN
+                     \* (on the wire with concurrent executions the log points are not atomic with
+                     \* the driver's counter: not evaluated there)
+                     \cup (IF evt.n # m.ends /\ ~(c.wire /\ Cardinality(m.execs \cup {e}) > 1)
+                          THEN {"attempts-miscounted"} ELSE {}) IN
          AddExec(SetX(m, r1), keys)
     [] evt.ev = "decide" ->
          LET stop == evt.x \in StopDecisions \/ ~c.idem
